@@ -1,5 +1,6 @@
 import Model
 import Proofs.Walk
+import Proofs.Visits
 /-!
 C08 — no eligible working time is left idle.
 
@@ -69,5 +70,28 @@ theorem backToWork_skips_only_off (e : Env) (p : Int → Bool) (fuel : Nat) (c0 
       · rw [hj]; exact hc.2
       · exact this.2 j h1 (by omega)
     · exact ⟨Int.le_refl _, by intro j h1 h2; omega⟩
+
+/-! ### one task, end to end (forward mode, single selected resource) -/
+
+/-- **none skipped**: the k-th slot a forward walk visits is `cursor + k` -/
+theorem visits_are_consecutive (e : Env) (t : Nat) (fuel : Nat) (σ : St) (w : Walk) (k : Nat)
+    (hk : k < (walkVisits e t fuel σ w).length) : ((walkVisits e t fuel σ w)[k]).2.cur = w.cur + k :=
+  walkVisits_consecutive e t fuel σ w k hk
+
+/-- **C08 for one task, end to end** (`TaskScenario.schedule()` in forward mode): started in any state satisfying the
+    scheduler invariant, a successful run of an effort task with the single selected resource `r` visits the slots
+    from the slot of its dependency bound up to its finishing slot one by one, and in the resulting ledger a visited
+    slot carries a booking of the task iff — at the moment it was visited — the resource was available (leaf, on
+    shift, time left in the slot, not a marked free slot, resource and group limits not exhausted) and the task's
+    limits allowed the booking.  No eligible slot between bound and end is left idle. -/
+theorem task_no_idle (e : Env) (wf : WF e) (σ : St) (t r : Nat)
+    (hinv : Inv e σ) (hel : Elig e t r) (hb : t < σ.ts.size) (hf : (σ.tst t).forward = true)
+    (hnd : (σ.tst t).done = false) (hclean : ∀ i, usageOf (σ.led.get r i).usage t = none)
+    (hok : (scheduleTask e σ t).2 = true) :
+    ∀ p ∈ walkVisits e t (e.size.toNat + 3) (σ.setT t (σ.tst t))
+        { cur := (initCursor e σ t).1, offset := (initCursor e σ t).2 },
+      (usageOf ((scheduleTask e σ t).1.led.get r p.2.cur).usage t ≠ none ↔
+        (available e (reserveStep p.1 p.2 r) r p.2.cur && taskLimitsOk e (reserveStep p.1 p.2 r) t p.2.cur r) = true) :=
+  scheduleTask_no_idle e wf σ t r hinv hel hb hf hnd hclean hok
 
 end SP.C08
